@@ -606,6 +606,11 @@ EXTERNAL_CONSTS.update({
     'fvm_shared::econ::TokenAmount::PRECISION': IntV(10**18, 'u64'), 'TokenAmount::PRECISION': IntV(10**18, 'u64'),
     'TokenAmount::DECIMALS': IntV(18, 'usize'),
     'NO_ALLOCATION_ID': IntV(0, 'u64'),
+    'fvm_shared::randomness::RANDOMNESS_LENGTH': IntV(32, 'usize'), 'RANDOMNESS_LENGTH': IntV(32, 'usize'),
+    'fvm_shared::event::Flags::FLAG_INDEXED_ALL': StructV('Flags', {0: IntV(3, 'u64')}), 'Flags::FLAG_INDEXED_ALL': StructV('Flags', {0: IntV(3, 'u64')}),
+    'Flags::FLAG_INDEXED_KEY': StructV('Flags', {0: IntV(1, 'u64')}), 'Flags::FLAG_INDEXED_VALUE': StructV('Flags', {0: IntV(2, 'u64')}),
+    'fvm_shared::crypto::hash::SupportedHashes::Blake2b256::{constant#0}': IntV(0xb220, 'isize'),
+    'frc46_token::receiver::FRC46_TOKEN_TYPE': IntV(2233613279, 'u32'), 'FRC46_TOKEN_TYPE': IntV(2233613279, 'u32'),
     'log::STATIC_MAX_LEVEL': EnumV('LevelFilter', 0, 'Off'), 'STATIC_MAX_LEVEL': EnumV('LevelFilter', 0, 'Off'),
 })
 
@@ -1034,6 +1039,8 @@ def _(E, c):
 
 @model('Hamt::store', 'Kamt::store', 'Hamt::into_store', 'Kamt::into_store', 'HamtImpl::store', 'HamtImpl::into_store')
 def _(E, c):
+    if c.callee.idents[-1] == 'store':
+        return RefV(Cell(OpaqueV('store'), 'store'), ())
     return OpaqueV('store')
 
 
@@ -1206,6 +1213,15 @@ class RuntimeM:
         self.send_hook = None      # f(E, rt, rec) -> None | ('ok', retblock) | ('fail', code) | ('syserr', n)
         self.effects = []          # ordered log: ('validate',..) ('send', rec) ('commit',) ('create', ..) ('event',)
         self.funcs = {}
+        self.prefix_mode = False   # C11: stop at the first externally visible effect
+        self.rejected_by_validation = False
+
+    def effect_point(self, what):
+        # once the caller has been validated and accepted, nothing later can un-validate it: the C11 obligations stop
+        # here.  An effect BEFORE validation (e.g. a query send that determines the allowed callers) is executed normally:
+        # the VM reverts it if the call then aborts.
+        if self.prefix_mode and self.validations and not self.rejected_by_validation:
+            raise PathEnd('prefix', what)
 
     def ufunc(self, E, fname, kt, make):
         """uninterpreted, memoised environment function (forks on argument aliasing)"""
@@ -1325,7 +1341,12 @@ def _validate(E, rt, accept, what):
     rt.validations.append((what, accept))
     rt.effects.append(('validate', what, accept))
     if E.ctx.branch(accept):
+        if rt.prefix_mode:
+            raise PathEnd('prefix', 'validated')     # C11: nothing later can un-validate the caller
         return ok(UNIT)
+    rt.rejected_by_validation = True
+    if rt.prefix_mode:
+        raise PathEnd('prefix', 'rejected')
     return err(actor_error(E, 18, 'caller not allowed'))
 
 
@@ -1473,6 +1494,7 @@ def _(E, c):
 @model(RT + 'create_actor$')
 def _(E, c):
     rt = rt_of(E, c.args[0])
+    rt.effect_point('create_actor')
     rec = ('create_actor', cid_of(E, c.args[1]), E.deref(c.args[2]), E.deref(c.args[3]) if len(c.args) > 3 else None)
     rt.created.append(rec)
     rt.effects.append(rec)
@@ -1482,6 +1504,7 @@ def _(E, c):
 @model(RT + 'delete_actor$')
 def _(E, c):
     rt = rt_of(E, c.args[0])
+    rt.effect_point('delete_actor')
     rt.deleted = True
     rt.effects.append(('delete_actor',))
     return ok(UNIT, c.dest_ty)
@@ -1490,6 +1513,7 @@ def _(E, c):
 @model(RT + 'emit_event$')
 def _(E, c):
     rt = rt_of(E, c.args[0])
+    rt.effect_point('emit_event')
     rt.events.append(E.deref(c.args[1]))
     rt.effects.append(('event',))
     return ok(UNIT, c.dest_ty)
@@ -1524,6 +1548,7 @@ def _(E, c):
 @model(RT + 'create$')
 def _(E, c):
     rt = rt_of(E, c.args[0])
+    rt.effect_point('create_state')
     rt.state = E.deref(c.args[1])
     rt.state_set = True
     rt.commits += 1
@@ -1549,6 +1574,7 @@ def _(E, c):
         rt.in_tx = False
     n, rv = variant(E, r)
     if n == 'Ok':
+        rt.effect_point('commit')
         rt.state = cell.value
         rt.commits += 1
         rt.effects.append(('commit',))
@@ -1568,6 +1594,7 @@ def _(E, c):
 @model(RT + 'set_state_root$')
 def _(E, c):
     rt = rt_of(E, c.args[0])
+    rt.effect_point('set_state_root')
     rt.funcs['state_root'] = cid_of(E, c.args[1])
     rt.commits += 1
     rt.effects.append(('set_state_root', rt.funcs['state_root']))
@@ -1578,6 +1605,7 @@ def _(E, c):
 @model(RT + 'send$')
 def _(E, c):
     rt = rt_of(E, c.args[0])
+    rt.effect_point('send')
     rec = SendRecord()
     rec.to = addr(E, c.args[1])
     rec.method = E.deref(c.args[2])
@@ -1633,7 +1661,12 @@ def _(E, c):
         ret = LazyV(nm + '.errret', 'std::option::Option<IpldBlock>')
         return ok(StructV('Response', {0: StructV('ExitCode', {0: IntV(code, 'u32')}), 1: ret}), c.dest_ty)
     rec.syscall_err = 'syserr'
-    en = LazyV(nm + '.errno', 'ErrorNumber')
+    if E.ctx.env.get('errno_all'):
+        en = LazyV(nm + '.errno', 'ErrorNumber')       # every syscall error number (forks once per variant)
+    else:
+        # one representative syscall error; InsufficientFunds is produced by the balance check above.  The mapping of the
+        # other error numbers to exit codes (extract_send_result) does not influence any property clause.
+        en = mk_enum('ErrorNumber', 'ErrorNumber', 'NotFound')
     return err(StructV('SendError', {0: en}), c.dest_ty)
 
 
@@ -1737,6 +1770,11 @@ def _lazy_vec(E, ty, name):
     a = type_args(ty)
     if a and a[0].strip() == 'u8':
         return SymBytes(name)
+    lens = E.ctx.env.get('lazy_vec_lens')
+    if lens and a:
+        # obligation-declared bound: unknown vectors take one of the listed lengths (all explored)
+        n = lens[E.ctx.choose(len(lens), 'len(%s)' % name)]
+        return VecV([E.materialize(a[0].strip(), '%s[%d]' % (name, i)) for i in range(n)], ty)
     return LazyV(name, ty)
 
 
@@ -1945,3 +1983,41 @@ def _(E, c):
     nm = E.ctx.fresh_name('bf_new')
     E.ctx.assume(z3.Int(nm + '#card') == 0)
     return BitFieldV(nm)
+
+
+@model('re:^<(BigInt|BigUint) as FromStr>::from_str$', 'BigInt::parse_bytes', 're:^<(BigInt|BigUint) as Num>::from_str_radix$')
+def _(E, c):
+    v = E.deref(c.args[0])
+    if isinstance(v, StrV):
+        try:
+            n = int(v.s.replace('_', ''), 10 if len(c.args) == 1 else E.deref(c.args[1]).v)
+            return ok(BigV(n), c.dest_ty) if type_head(c.dest_ty or 'Result') == 'Result' else some(BigV(n), c.dest_ty)
+        except ValueError:
+            return err(OpaqueV('ParseBigIntError'), c.dest_ty)
+    raise Inconclusive('BigInt::from_str of non-literal')
+
+
+@model('re:^<&?BitField as Validate>::validate$', 're:^<UnvalidatedBitField as Validate>::validate$', 'UnvalidatedBitField::validate',
+       're:^<.* as Validate>::validate$')
+def _(E, c):
+    nm = E.ctx.fresh_name('bf_validate')
+    if E.ctx.branch(z3.Bool(nm + '.ok')):
+        v = c.args[0]
+        return ok(v if isinstance(v, RefV) else RefV(Cell(v, 'bf'), ()), c.dest_ty)
+    return err(OpaqueV('BitFieldError'), c.dest_ty)
+
+
+@model('BitField::get')
+def _(E, c):
+    v = E.deref(c.args[0])
+    if isinstance(v, LazyV):
+        v = E.materialize(v.ty, v.name)
+    k = E.deref(c.args[1])
+    tbl = E.ctx.memo.setdefault(('bfbits', v.name), [])
+    for (kt, b) in tbl:
+        if E.ctx.branch(kt == k.v):
+            return b
+    b = z3.Bool('%s.bit[%d]' % (v.name, len(tbl)))
+    tbl.append((k.v, b))
+    E.ctx.assume(z3.Implies(b, z3.Int(v.name + '#card') >= 1))
+    return b
